@@ -57,4 +57,16 @@ theorem subNames_eq_sub (ta tb : Tree) (ha : ta.resourceFree = true) (hb : tb.re
   simp [subNames, eraseRes_of_resourceFree ta ha, eraseRes_of_resourceFree tb hb]
 
 
+/-- the C07 main correspondence, usable from other lemma files -/
+theorem check_iff_subNames' (W : Colls) (n : Nat) (c : Checker) (at_ bt : Types) (a b : ItemKind) (ta tb : Tree)
+    (hat : W.mem at_) (hbt : W.mem bt) (hm : MemoSound W c.cache)
+    (ha : at_.unfoldKind n a = some ta) (hb : bt.unfoldKind n b = some tb)
+    (hnda : ta.namesDistinct = true) (hndb : tb.namesDistinct = true) :
+    ((isSubtype n c at_ a bt b).1 = .ok ↔ subNames ta tb = true) ∧
+    (∀ s, (isSubtype n c at_ a bt b).1 ≠ .panic s) ∧
+    MemoSound W (isSubtype n c at_ a bt b).2.cache ∧
+    ((isSubtype n c at_ a bt b).1 = .ok → (isSubtype n c at_ a bt b).2.kinds = c.kinds) := by
+  have h := isSubtype_spec W n at_ bt hat hbt c a b ta tb hm ha hb hnda hndb
+  exact ⟨h.1.1, h.1.2, h.2.1, h.2.2⟩
+
 end Wac.Props.C07
